@@ -231,3 +231,83 @@ def move_order(ck, F, rule="MOVE-ORDER"):
               sample={"fn": fn, "positive_branch_reversed": pos_rev, "negative_branch_reversed": neg_rev})
         ck.ob(rule, "%s|delta<0-iterates-forward" % fn, bool(neg_calls) and not neg_rev,
               "%s moves towards lower indices while iterating the block in reverse" % fn, *b.loc(bi))
+
+
+# ------------------------------------------------------------------------------------------------ C33
+WSLINKS = ("ironcalc_base::types::Worksheet", "links")
+LINK_APPLIERS = {"apply_diff_list", "apply_undo_diff_list", "set_user_input_with_link_diffs"}
+# structural operations whose undo is the inverse structural operation (links are displaced back, not captured)
+LINK_DISPLACERS = {"insert_rows", "insert_columns", "move_rows_action", "move_columns_action"}
+
+
+def link_diff(ck, F, rule="LINK-DIFF"):
+    """Every UserModel operation that calls a Model function able to add or remove hyperlinks records the change:
+    (a) range_link_diffs dominates the call and feeds the pushed diff list, or (b) the call goes through
+    set_user_input_with_link_diffs, or (c) the function constructs Diff::SetCellLink itself."""
+    from rules_um import USERMODEL, usermodel_ops, DIFF
+    P = Program(F)
+    n = 0
+    for path in usermodel_ops(F, vis=None):
+        h = F.heads[path]
+        if h["name"] in LINK_APPLIERS:
+            continue
+        b = F.body(path)
+        sites = []
+        for bi, t in b.calls():
+            c = t["fn"].get("r")
+            if c in F.heads and F.heads[c].get("impl_adt") != USERMODEL and WSLINKS in P.effects(c):
+                sites.append((bi, t, F.qname_of(c).rsplit("::", 1)[-1]))
+        if not sites:
+            continue
+        rld = b.calls_to("UserModel::range_link_diffs")
+        makes_link_diff = any(s["rv"]["k"] == "agg" and s["rv"].get("adt") == DIFF and s["rv"].get("variant") == "SetCellLink" for _, _, s in b.stmts())
+        for k, (bi, t, callee) in enumerate(sites):
+            n += 1
+            f, l = b.loc(bi)
+            if callee in LINK_DISPLACERS:
+                ck.ob(rule, "%s|%s|displaced-not-removed" % (h["name"], callee), True, nontrivial=False)
+                continue
+            ok_a = any(b.dominates(rb, bi) for rb, _ in rld)
+            ok_c = makes_link_diff
+            ck.ob(rule, "%s|%s#%d" % (h["name"], callee, k), ok_a or ok_c,
+                  "UserModel::%s calls Model::%s, which can add or remove a cell's hyperlink, without capturing the link change "
+                  "(no dominating range_link_diffs, no SetCellLink diff, not through set_user_input_with_link_diffs): undo cannot restore the link"
+                  % (h["name"], callee), f, l, sample={"op": h["name"], "callee": callee, "range_link_diffs": ok_a, "SetCellLink": ok_c})
+    ck.note("link_sites", n)
+    # model side: clearing content removes the links in the same function
+    for fn in ("range_clear_contents", "range_clear_all"):
+        b = ck.need(F.one, "model::Model::" + fn)
+        from effects import direct_effects
+        de = direct_effects(b.rec, F.adts)
+        ck.ob(rule, "Model::%s|removes-links" % fn, WSLINKS in de or WSLINKS in P.effects(b.path),
+              "Model::%s clears cells but never touches Worksheet.links: the hyperlinks of cleared cells would stay" % fn, b.file, b.line)
+    su = ck.need(F.one, "model::Model::set_user_input")
+    de = P.direct.get(su.path, {})
+    ck.ob(rule, "Model::set_user_input|empty-input-removes-link", WSLINKS in de,
+          "Model::set_user_input never writes Worksheet.links: clearing a cell by typing nothing would keep its hyperlink", su.file, su.line)
+
+
+def triple_cut(ck, F, rule="TRIPLE-cut"):
+    """The cut branch of paste_from_clipboard consults all three `get_*_updates_for_cut` and records a diff for each kind
+    of update it applies."""
+    from rules_um import DIFF
+    b = ck.need(F.one, "UserModel::paste_from_clipboard")
+    wanted = {"get_external_formula_updates_for_cut": "SetCellValue", "get_defined_name_updates_for_cut": "UpdateDefinedName",
+              "get_conditional_formatting_updates_for_cut": "UpdateConditionalFormatting"}
+    diffs = {s["rv"]["variant"] for _, _, s in b.stmts() if s["rv"]["k"] == "agg" and s["rv"].get("adt") == DIFF}
+    calls = {}
+    for fn in wanted:
+        calls[fn] = b.calls_to("Model::" + fn)
+    for fn, dv in wanted.items():
+        cs = calls[fn]
+        f, l = b.loc(cs[0][0]) if cs else (b.file, b.line)
+        ck.ob(rule, "paste_from_clipboard|%s" % fn, len(cs) == 1 and dv in diffs,
+              "the cut branch of paste_from_clipboard %s: references to the cut area in %s would not follow the cells (or the rewrite could not be undone)"
+              % ("does not call %s" % fn if not cs else "applies %s without recording Diff::%s" % (fn, dv), fn.split("_updates")[0].replace("get_", "").replace("_", " ")), f, l,
+              sample={"helper": fn, "diff": dv, "called": len(cs), "recorded": dv in diffs})
+    # all three are in the same (cut) branch: dominated by the same condition block
+    blocks = [calls[fn][0][0] for fn in wanted if calls[fn]]
+    if len(blocks) == 3:
+        first = min(blocks)
+        ok = all(b.dominates(first, x) or x == first for x in blocks)
+        ck.ob(rule, "paste_from_clipboard|same-branch", ok, "the three cut updates are not on the same path", *b.loc(first))
